@@ -11,6 +11,7 @@ import (
 	"errors"
 	"fmt"
 	"reflect"
+	"regexp"
 	"strings"
 	"time"
 
@@ -181,6 +182,94 @@ type stepRun struct {
 	Intact  bool
 	Shared  bool
 	raw     *core.Stride
+	rawText string // the diagnostics as they are (addresses masked): two identical calls give identical texts
+}
+
+var addrRe = regexp.MustCompile(`0x[0-9a-fA-F]+`)
+
+// rawTexts: every string of the states of a stride as it is (the comparison with the model sees one token per diagnostic)
+func rawTexts(sd *core.Stride) string {
+	if sd == nil {
+		return ""
+	}
+	var sb strings.Builder
+	for _, st := range []*core.State{sd.From, sd.To} {
+		if st == nil || st.Bs == nil {
+			sb.WriteString("|-")
+			continue
+		}
+		js, err := json.Marshal(map[string]interface{}(st.Bs))
+		if err != nil {
+			sb.WriteString("|!")
+			continue
+		}
+		sb.WriteString("|" + addrRe.ReplaceAllString(string(js), "0x"))
+	}
+	return sb.String()
+}
+
+// reaches: somewhere in a result (any field, exported or not, any depth outside the bindings' own values) sits the
+// caller's *State or the caller's bindings map
+func reaches(x interface{}, st *core.State) bool {
+	if st == nil {
+		return false
+	}
+	stPtr := reflect.ValueOf(st).Pointer()
+	var bsPtrIn uintptr
+	if st.Bs != nil {
+		bsPtrIn = reflect.ValueOf(st.Bs).Pointer()
+	}
+	seen := map[uintptr]bool{}
+	var walk func(v reflect.Value, depth int) bool
+	walk = func(v reflect.Value, depth int) bool {
+		if depth > 12 || !v.IsValid() {
+			return false
+		}
+		switch v.Kind() {
+		case reflect.Ptr:
+			if v.IsNil() {
+				return false
+			}
+			if v.Pointer() == stPtr {
+				return true
+			}
+			if seen[v.Pointer()] {
+				return false
+			}
+			seen[v.Pointer()] = true
+			return walk(v.Elem(), depth+1)
+		case reflect.Interface:
+			if v.IsNil() {
+				return false
+			}
+			return walk(v.Elem(), depth+1)
+		case reflect.Struct:
+			for i := 0; i < v.NumField(); i++ {
+				if walk(v.Field(i), depth+1) {
+					return true
+				}
+			}
+		case reflect.Slice, reflect.Array:
+			if v.Kind() == reflect.Slice && v.IsNil() {
+				return false
+			}
+			for i := 0; i < v.Len() && i < 4000; i++ {
+				if walk(v.Index(i), depth+1) {
+					return true
+				}
+			}
+		case reflect.Map:
+			if v.IsNil() {
+				return false
+			}
+			if bsPtrIn != 0 && v.Pointer() == bsPtrIn {
+				return true
+			}
+			// the values inside a bindings map are data: what they share is another question (top-level copies)
+		}
+		return false
+	}
+	return walk(reflect.ValueOf(x), 0)
 }
 
 var ctxForCount int
@@ -264,6 +353,10 @@ func runStep(spec *core.Spec, st *core.State, pending interface{}, ctl *core.Con
 		r.Intact = false
 	}
 	if r.raw != nil {
+		r.rawText = rawTexts(r.raw)
+		if reaches(r.raw, st) {
+			r.Shared = true
+		}
 		in := bsPtr(st.Bs)
 		for _, s := range []*core.State{r.raw.From, r.raw.To} {
 			if s != nil && s.Bs != nil && in != 0 && bsPtr(s.Bs) == in {
@@ -287,7 +380,7 @@ func (r *stepRun) key() string {
 	} else {
 		s += "nostride"
 	}
-	return s
+	return s + r.rawText
 }
 
 func (r *stepRun) coq() (string, bool) {
@@ -490,6 +583,7 @@ type walkRun struct {
 	Intact  bool
 	Shared  bool
 	Err     string
+	rawText string
 }
 
 type bpSpec struct {
@@ -554,6 +648,12 @@ func runWalk(spec *core.Spec, st *core.State, msgs []interface{}, ctl *core.Cont
 	}
 	if raw != nil {
 		wo := &walkObs{Stopped: raw.StoppedBecause.String()}
+		if reaches(raw, st) {
+			r.Shared = true
+		}
+		for _, sd := range raw.Strides {
+			r.rawText += rawTexts(sd)
+		}
 		in := bsPtr(st.Bs)
 		for _, sd := range raw.Strides {
 			wo.Strides = append(wo.Strides, obsStride(sd))
@@ -615,7 +715,7 @@ func (r *walkRun) key() string {
 	if r.Outcome != "ok" {
 		return r.Outcome
 	}
-	return canon(r.W)
+	return canon(r.W) + r.rawText
 }
 
 func (r *walkRun) coq() (string, bool) {
